@@ -73,6 +73,7 @@ pub fn operation(v: &Value) -> il::Operation {
         "store" => il::Operation::store(expr(&v["idx"]), expr(&v["src"])),
         "load" => il::Operation::load(scalar(&v["dst"]), expr(&v["idx"])),
         "branch" => il::Operation::branch(expr(&v["target"])),
+        "nop" if v.get("ph").is_some() => il::Operation::placeholder(operation(&v["ph"])),
         "nop" => il::Operation::nop(),
         "intrinsic" => il::Operation::intrinsic(il::Intrinsic::new(
             v["mn"].as_str().unwrap(),
